@@ -36,8 +36,10 @@ def _coords(ctx):
 def _prep(g, history):
     if history == "edges":
         g.edge_node_connectivity
-    elif history == "all":
+    elif history in ("all", "dist"):
         g.face_edge_connectivity, g.edge_face_connectivity, g.node_face_connectivity, g.face_lon, g.n_nodes_per_face, g.hole_edge_indices
+        if history == "dist":
+            g.edge_face_distances, g.edge_node_distances
 
 
 def _zr(v):
@@ -128,6 +130,17 @@ def make_isel(oid, dim, k, history, tiers=("quick", "thorough"), cost=2):
             except Exception as ex:      # noqa: BLE001
                 hmsg = f"hole_edge_indices on the subset raised {type(ex).__name__}: {ex}"
             ctx.prove("... and its boundary edges (hole_edge_indices) are its own edges with a single face", hmsg is None, note=hmsg)
+            if history == "dist" and hmsg is None:
+                try:
+                    efd = sub.edge_face_distances.values.flat_list()
+                    dmsg = None
+                    if len(efd) != int(ne):
+                        dmsg = f"edge_face_distances has {len(efd)} entries for {int(ne)} edges"
+                    zero = [sc.z(efd[e_]) == 0 for e_ in want]
+                except Exception as ex:      # noqa: BLE001
+                    dmsg, zero = f"edge_face_distances on the subset raised {type(ex).__name__}: {ex}", []
+                ctx.prove("... and edge_face_distances of the subset are those of its own faces: 0 on every edge with a single face in the subset "
+                          "(also when the source had computed its distances before)", sc.and_(dmsg is None, *zero), note=dmsg)
         # data sliced with the grid stays on the same physical faces
         U = world().get("uxarray.core.dataarray", "UxDataArray")
         da = U(C.sarr_1d(data, symnp.float64), dims=["n_face"], uxgrid=g, name="v")
@@ -165,6 +178,13 @@ def make_isel(oid, dim, k, history, tiers=("quick", "thorough"), cost=2):
         want = [i for i in range(sub.n_edge) if ef[i, 1] == F]
         if holes != want:
             return f"isel({dim}={sel}) after history '{history}': hole_edge_indices of the subset are {holes}, its edges with a single face are {want}"
+        if history == "dist":
+            fresh = C.real_grid(ROWS, lon, lat).isel(**{dim: sel})
+            for nm in ("edge_face_distances", "edge_node_distances"):
+                a_, b_ = np.asarray(getattr(sub, nm).values, dtype=float), np.asarray(getattr(fresh, nm).values, dtype=float)
+                if a_.shape != b_.shape or not np.allclose(a_, b_, atol=1e-12):
+                    return (f"isel({dim}={sel}) after the source had computed its edge distances: the subset reports {nm} {a_.tolist()}, "
+                            f"the same subset of a fresh source reports {b_.tolist()} (boundary edges of the subset: {want})")
         data = np.array(v["data"], dtype=float)
         out = ux.UxDataArray(data, dims=["n_face"], uxgrid=g, name="v").isel(**{dim: sel})
         if not np.allclose(np.atleast_1d(out.values), data[faces]):
@@ -511,6 +531,7 @@ def obligations(tier):
     obs = [make_isel("C09.isel.face.1.fresh", "n_face", 1, "fresh"), make_isel("C09.isel.face.2.edges", "n_face", 2, "edges", cost=4),
            make_isel("C09.isel.face.scalar", "n_face", 1, "scalar"), make_isel("C09.isel.node.1.all", "n_node", 1, "all"),
            make_isel("C09.isel.node.2.fresh", "n_node", 2, "fresh", cost=4), make_isel("C09.isel.face.3.all", "n_face", 3, "all", tiers=("thorough",), cost=8),
+           make_isel("C09.isel.face.2.dist", "n_face", 2, "dist", cost=4), make_isel("C09.isel.node.1.dist", "n_node", 1, "dist", cost=4),
            make_bbox("C09.bbox.nodes.plain", "nodes", False), make_bbox("C09.bbox.nodes.wrap", "nodes", True, tiers=("thorough",)), make_bbox("C09.bbox.faces.wrap", "face centers", True),
            make_constlat("C09.constlat")]
     for mode in ("circle", "knn"):
